@@ -378,6 +378,14 @@ def DB.methodConflictsStd (db : DB) : List Diag :=
     let group := db.group p
     wellKnownMethods.filterMap (fun m => if (group.filter (·.accepts m)).length > 1 then some ⟨.routeMethodConflict, k, m⟩ else none))
 
+/-- the variant a seeded change introduced ("two routes can only compete for a method that one of them has asked for"):
+    only the methods some guard of the path NAMES are examined; a route with `MethodGuard::Any` names none. -/
+def DB.methodConflictsNamed (db : DB) : List Diag :=
+  (db.paths.zipIdx).flatMap (fun (p, k) =>
+    let group := db.group p
+    let methods := (group.flatMap (·.methods)).eraseDups
+    methods.filterMap (fun m => if (group.filter (·.accepts m)).length > 1 then some ⟨.routeMethodConflict, k, m⟩ else none))
+
 /-- matchit 0.9's insertion conflict, semantically (parameter names are erased before insertion):
     the two templates agree segment by segment (equal literals, a parameter where the other has one)
     until both end, or until one has a catch-all where the other has a catch-all or a parameter. -/
